@@ -306,3 +306,14 @@ pub fn kind_corpus() -> Vec<(DTy, DVal)> {
         (en, V::SVar(3, vec![V::Bool(true), V::U(64, 1 << 40)])),
     ]
 }
+
+/// does the type contain a sequence / map whose elements are all zero bytes wide?
+pub fn has_zero_width_seq(t: &DTy) -> bool {
+    match t {
+        DTy::Seq(e) => zero_width(e) || has_zero_width_seq(e),
+        DTy::Map(k, v) => (zero_width(k) && zero_width(v)) || has_zero_width_seq(k) || has_zero_width_seq(v),
+        DTy::Option(t) | DTy::NStruct(t) => has_zero_width_seq(t),
+        DTy::Tuple(ts) | DTy::TStruct(ts) | DTy::Struct(ts) | DTy::Enum(ts) => ts.iter().any(has_zero_width_seq),
+        _ => false,
+    }
+}
